@@ -310,6 +310,7 @@ func checkLRUHistory(capacity uint64, ops []LRUOp, deep bool, mk func(i, size in
 	}
 	var gets, puts, hits, misses int64
 	evicted := map[uint64]bool{} // keys known not to be resident (model side, from observations)
+	everTight := false           // true once the stored entries no longer fitted comfortably
 	for i, op := range ops {
 		if op.Put {
 			puts++
@@ -337,6 +338,13 @@ func checkLRUHistory(capacity uint64, ops []LRUOp, deep bool, mk func(i, size in
 				evicted[op.Key] = true
 			}
 		}
+		var comfy uint64
+		for _, bm := range latest {
+			comfy += bm.GetSizeInBytes() + comfort
+		}
+		if comfy > capacity {
+			everTight = true
+		}
 		if !deep && i != len(ops)-1 {
 			continue
 		}
@@ -350,7 +358,7 @@ func checkLRUHistory(capacity uint64, ops []LRUOp, deep bool, mk func(i, size in
 			}
 		}
 		resident := map[uint64]bool{}
-		var bytes, comfy uint64
+		var bytes uint64
 		for k := range keys {
 			if bm, ok := twin.Get(k); ok {
 				if bm != latest[k] {
@@ -359,9 +367,6 @@ func checkLRUHistory(capacity uint64, ops []LRUOp, deep bool, mk func(i, size in
 				resident[k] = true
 				bytes += bm.GetSizeInBytes()
 			}
-		}
-		for _, bm := range latest {
-			comfy += bm.GetSizeInBytes() + comfort
 		}
 		if op.Put && bytes > capacity {
 			return "byte-bound", fmt.Sprintf("after Put at step %d the retrievable bitmaps hold %d bytes, capacity %d", i, bytes, capacity)
@@ -378,7 +383,7 @@ func checkLRUHistory(capacity uint64, ops []LRUOp, deep bool, mk func(i, size in
 		if op.Put && bms[i].GetSizeInBytes()+comfort <= capacity && !resident[op.Key] {
 			return "fitting-entry-not-stored", fmt.Sprintf("step %d: entry of %d bytes is not retrievable right after Put (capacity %d)", i, bms[i].GetSizeInBytes(), capacity)
 		}
-		if comfy <= capacity {
+		if !everTight {
 			for k := range latest {
 				if !resident[k] {
 					return "needless-eviction", fmt.Sprintf("after step %d key %d was evicted although everything stored fits comfortably (%d <= %d)", i, k, comfy, capacity)
